@@ -289,6 +289,9 @@ def do_action(obj, root, a, emb, beh=None, env=None):
         elif op == "updcoords":
             if emb == "tensor":
                 f.updateCoords(COORD_FN[a["fn"]])
+            elif a["fn"] in ("reverse", "mirror") and len(a.get("path", [])) == 0 and len(f.coords) % 2 == 1:
+                # a fiber without a declared shape and no new_shape=: the library rejects the call (shape type check) - the tree must stay well-formed all the same
+                f.updateCoords(COORD_FN[a["fn"]])
             else:
                 f.updateCoords(COORD_FN[a["fn"]], new_shape=64)
         elif op == "updpayloads":
